@@ -673,6 +673,16 @@ func (l *Legacy) SendChunks(units [][]byte) error {
 	return err
 }
 
+// SendWithEnd writes one chunk and the terminating zero-length chunk of the request body with a single write (a client
+// or proxy that ends the RDG_IN_DATA body right behind its last packet).
+func (l *Legacy) SendWithEnd(unit []byte) error {
+	l.wmu.Lock()
+	defer l.wmu.Unlock()
+	l.in.SetWriteDeadline(time.Now().Add(10 * time.Second))
+	_, err := l.in.Write(append(chunk(unit), []byte("0\r\n\r\n")...))
+	return err
+}
+
 // SendRawIn writes bytes on the IN connection without chunk framing.
 func (l *Legacy) SendRawIn(b []byte) error {
 	l.wmu.Lock()
